@@ -67,6 +67,17 @@ def cases(tier, seed):
                                            segsets=[[2] * n, [1] + [3] * (n - 1)],
                                            perturb=dict(wire=wi, end=ei, mag=mag, dir=list(dv)))
     if tier == 'thorough':
+        # 7-point lattices: all descriptions of the <= 3-wire graphs that use the two extra points, segment counts {1,2}^n
+        for ground in (False, True):
+            P, f, lam = geom.lattice(seed, ground=ground, n=7)
+            pts = [list(map(float, p)) for p in P]
+            for es in geom.edge_sets_new(7, 3):
+                n = len(es)
+                segsets = list(itertools.product((1, 2), repeat=n))
+                for order in itertools.permutations(range(n)):
+                    for flips in itertools.product((0, 1), repeat=n):
+                        edges = [list(es[i][::-1] if flips[k] else es[i]) for k, i in enumerate(order)]
+                        yield dict(env='ideal' if ground else 'free', f=f, pts=pts, edges=edges, segsets=[[s_[i] for i in order] for s_ in segsets])
         # 4-wire graphs, one segment-count vector per graph, all descriptions
         P, f, lam = geom.lattice(seed, ground=False)
         pts = [list(map(float, p)) for p in P]
